@@ -37,7 +37,8 @@ Inductive case :=
 | CDwBad (bytes : list N) (res : option (N * list N * N * list N))
 | CReplay (fs n commit snp : nat) (clears : list nat) (first : nat) (rep : option (nat * nat * nat)) (appl : nat)
 | CAck (evs : list mev) (acks : list batch) (final : list (key * val))
-| CAckErr (acked : bool).
+| CAckErr (acked : bool)
+| CConflict (old : list batch) (j : nat) (new : list batch) (applied : list batch).
 
 Definition dw_eqb (a : option dwrap) (b : option (N * list N * N * list N)) : bool :=
   match a, b with
@@ -91,6 +92,15 @@ Definition ack_agrees (fresh : bool) (evs : list mev) (acks : list batch) (final
   | None => false
   end.
 
+(* a follower whose log is overwritten from index k-j+1 by the new leader (effect of RReplicate: the log becomes a
+   prefix of the leader's log = kept prefix ++ new entries; an empty batch is the leader's no-op); what it applies *)
+Definition conflict_applied (old : list batch) (j : nat) (new : list batch) : list batch :=
+  let ent := fun b : batch => match b with [] => ENoop | _ => EData 1 0%N b end in
+  let leader_log := firstn (length old - j) (map ent old) ++ map ent new in
+  let follower := with_elog node0 (map ent old) in
+  let follower' := with_elog follower (firstn (length leader_log) leader_log) in
+  flat_map (fun e => match e with EData _ _ b => [b] | _ => [] end) (elog follower').
+
 Definition variant (cur rep : bool) : nat :=
   match cur, rep with true, true => 0 | true, false => 1 | false, true => 2 | false, false => 3 end.
 
@@ -111,6 +121,8 @@ Definition classify (c : case) : nat :=
       variant (replay_eqb (replay_model false fs n commit snp clears) (first, rep, appl))
               (replay_eqb (replay_model true fs n commit snp clears) (first, rep, appl))
   | CAck evs acks final => variant (ack_agrees false evs acks final) (ack_agrees true evs acks final)
+  | CConflict old j new applied =>
+      if list_eqb batch_eqb (conflict_applied old j new) applied then 0 else 3
   | CAckErr acked =>
       variant (Bool.eqb (commit_result_current true false) acked) (Bool.eqb (commit_result_repaired true false) acked)
   end.
